@@ -36,7 +36,10 @@ LEAN_TY = {"Nat": "Nat", "Int": "Int", "Bool": "Bool", "OptNat": "Option Nat", "
            "Tok": "PM.Token", "OptTok": "Option PM.Token", "Char": "Char", "Label": "PM.Label", "Ymd": "PM.Ymd",
            "Info": "PM.Info", "Res": "PM.Res", "Toks": "List PM.Token", "Strids": "List (Char × Nat)",
            "NatList": "List Nat", "CharList": "List Char", "YMD": "PM.YMD", "NatPair": "Nat × Nat",
-           "NatOptPair": "Nat × Option Nat", "OptPair": "Option (Nat × Nat)", "Unit": "Unit"}
+           "NatOptPair": "Nat × Option Nat", "OptPair": "Option (Nat × Nat)", "Unit": "Unit",
+           "TokPair": "PM.Token × PM.Token", "DecimalV": "PPy.DecimalV", "FoldDt": "PPy.FoldDt"}
+PAIR_TYPES = {"NatPair": ("Nat", "Nat"), "NatOptPair": ("Nat", "OptNat"), "TokPair": ("Tok", "Tok")}
+# (methods of `parser` that are themselves translated: PARSER_METHODS below)
 
 YMD_FIELDS = {"century_specified": ("century", "Bool"), "dstridx": ("dIdx", "OptNat"), "mstridx": ("mIdx", "OptNat"),
               "ystridx": ("yIdx", "OptNat")}
@@ -106,7 +109,8 @@ class Tr:
     # ------------------------------------------------------------------ coercions
     def coerce(self, t, ty, want, pre=None):
         if ty == want: return t
-        if want == "Int" and ty == "Nat": return "(%s : Int)" % t
+        if want == "Int" and ty == "Nat":
+            return "(%s : Int)" % t if t.isidentifier() or t.isdigit() else "((%s : Nat) : Int)" % t
         if want in ("OptNat", "OptInt", "OptTok", "OptPair") and ty == "None": return "none"
         if want == "OptNat" and ty == "Nat": return "(some %s)" % t
         if want == "OptInt" and ty == "Int": return "(some %s)" % t
@@ -121,6 +125,10 @@ class Tr:
         if want == "Nat" and ty == "OptNat" and pre is not None:          # arithmetic / indexing with None: TypeError
             x = self.fresh("v")
             pre.append((x, "PPy.optNat %s" % t, "Nat"))
+            return x
+        if want == "Dec" and ty == "DecimalV" and pre is not None:       # only after `is_finite()` held
+            x = self.fresh("v")
+            pre.append((x, "PPy.decFinite %s" % t, "Dec"))
             return x
         if want == "Int" and ty == "OptNat" and pre is not None:
             return "(%s : Int)" % self.coerce(t, ty, "Nat", pre)
@@ -159,8 +167,8 @@ class Tr:
             parts = [self.E(x, pre) for x in e.elts]
             if self.spec.ret == "YMD" and len(parts) == 3:
                 return "(%s)" % ", ".join(self.coerce(t, ty, "OptNat", pre) for t, ty in parts), "YMD"
-            if len(parts) == 2 and self.spec.ret in ("NatPair", "NatOptPair"):
-                want = ("Nat", "Nat") if self.spec.ret == "NatPair" else ("Nat", "OptNat")
+            if len(parts) == 2 and self.spec.ret in PAIR_TYPES:
+                want = PAIR_TYPES[self.spec.ret]
                 return "(%s)" % ", ".join(self.coerce(t, ty, w, pre) for (t, ty), w in zip(parts, want)), self.spec.ret
             raise Untranslatable("tuple value")
         if isinstance(e, ast.List):
@@ -184,7 +192,8 @@ class Tr:
             return "true" if c else "false"
         if c.startswith("(") and c.endswith(" = true)") and c.count(" = true") == 1 and c.count("(") == c.count(")") \
                 and "∧" not in c and "∨" not in c:
-            return c[1:-len(" = true)")]
+            inner = c[1:-len(" = true)")]
+            return inner if inner.startswith("(") else "(%s)" % inner
         return "(decide %s)" % c
 
     def prop_of(self, c):
@@ -200,6 +209,8 @@ class Tr:
         return None
 
     def attr(self, e, pre):
+        if isinstance(e.value, ast.Name) and e.value.id == "string" and e.attr == "ascii_uppercase":
+            return "string.ascii_uppercase", "AsciiUpper"            # only as the right operand of `in`
         base, bty = self.E(e.value, pre)
         if bty == "Ymd":
             if e.attr in YMD_FIELDS:
@@ -233,6 +244,16 @@ class Tr:
         l, tl = self.E(e.left, pre)
         r, tr = self.E(e.right, pre)
         op = type(e.op)
+        if tl == "Dec" and op is ast.Mod and l and isinstance(e.right, ast.Constant) and e.right.value == 1:
+            x = self.fresh("r")
+            pre.append((x, "PM.Dec.rem1 %s" % l, "Dec"))          # `value % 1` in the Decimal context (InvalidOperation)
+            return x, "Dec"
+        if tr == "Dec" and op is ast.Mult and isinstance(e.left, ast.Constant) and e.left.value == 60:
+            return "(PM.Dec.mul60 %s)" % r, "Dec"
+        if tl == "Static" and op is ast.Mod and isinstance(l.v, str):
+            return St(l.v), "Static"                                  # a message text
+        if tl == "Tok" and tr == "Tok" and op is ast.Add:
+            return "(%s ++ %s)" % (l, r), "Tok"
         if tl == "OptNat": l, tl = self.coerce(l, tl, "Nat", pre), "Nat"
         if tr == "OptNat": r, tr = self.coerce(r, tr, "Nat", pre), "Nat"
         if tl in ("Nat", "Int") and tr in ("Nat", "Int"):
@@ -260,6 +281,16 @@ class Tr:
             pre.append((t, "PM.monthrange %s %s" % (self.coerce(y, ty, "Int", pre), self.coerce(m, tm, "Int", pre)), "Int"))
             return t, "Int"
         base, bt = self.E(v, pre)
+        if bt == "Tok" and isinstance(e.slice, ast.Slice):
+            sl = e.slice
+            if sl.step is not None: raise Untranslatable("slice step")
+            def bound(b):
+                if b is None: return None
+                if isinstance(b, ast.Constant) and isinstance(b.value, int) and b.value >= 0: return b.value
+                raise Untranslatable("slice bound %s" % ast.unparse(b))
+            lo, hi = bound(sl.lower), bound(sl.upper)
+            if hi is None: return "(%s.drop %d)" % (base, lo or 0), "Tok"
+            return "(PM.sl %s %d %d)" % (base, lo or 0, hi), "Tok"
         if bt == "Ymd":
             i = self.index_int(e.slice, pre)
             t = self.fresh("x")
@@ -316,15 +347,49 @@ class Tr:
                 if ty == "Tok": return "true", "StaticBool"
                 if ty in ("Dec", "Nat", "Int"): return "false", "StaticBool"
                 raise Untranslatable("hasattr(%s, '__len__')" % ty)
+            if n == "Decimal" and len(e.args) == 1:
+                t, ty = self.E(e.args[0], pre)
+                if ty != "Tok": raise Untranslatable("Decimal(%s)" % ty)
+                x = self.fresh("dv")
+                pre.append((x, "PPy.decimalCtor cls %s" % t, "DecimalV"))
+                return x, "DecimalV"
             if n == "range" and len(e.args) == 1 and isinstance(e.args[0], ast.Constant) and isinstance(e.args[0].value, int):
                 return "(List.range %d)" % e.args[0].value, "NatList"
             raise Untranslatable("call %s" % n)
         if isinstance(f, ast.Attribute):
+            if isinstance(f.value, ast.Name) and f.value.id == "tz" and f.attr == "enfold" and len(e.args) == 1 \
+                    and len(e.keywords) == 1 and e.keywords[0].arg == "fold":
+                a, ta = self.E(e.args[0], pre); b, tb = self.E(e.keywords[0].value, pre)
+                if ta != "FoldDt" or tb != "Nat": raise Untranslatable("tz.enfold(%s, fold=%s)" % (ta, tb))
+                return "(PPy.FoldDt.enfold %s %s)" % (a, b), "FoldDt"
             recv, rt = self.E(f.value, pre)
             if rt == "Tok" and f.attr == "isdigit" and not e.args:
                 return "(PM.isDigitTok cls %s)" % recv, "Bool"
             if rt == "Tok" and f.attr == "lower" and not e.args:
                 return "(PM.lower %s)" % recv, "Tok"
+            if rt == "Tok" and f.attr == "split" and len(e.args) == 1:
+                a, ta = self.E(e.args[0], pre)
+                x = self.fresh("p")
+                pre.append((x, "PPy.split2 %s %s" % (recv, self.char_of(a, ta)), "TokPair"))   # only as `a, b = s.split(c)`
+                return x, "TokPair"
+            if rt == "Tok" and f.attr == "ljust" and len(e.args) == 2:
+                a, ta = self.E(e.args[0], pre); b, tb = self.E(e.args[1], pre)
+                if ta != "Nat": raise Untranslatable("ljust width of type %s" % ta)
+                return "(PPy.ljust %s %s %s)" % (recv, a, self.char_of(b, tb)), "Tok"
+            if rt == "DecimalV" and f.attr == "is_finite" and not e.args:
+                return "(PPy.DecimalV.isFinite %s)" % recv, "Bool"
+            if rt == "FoldDt" and f.attr == "tzname" and not e.args:
+                return "(PPy.FoldDt.tzname %s)" % recv, "OptTok"
+            if rt == "Parser" and f.attr in PARSER_METHODS:
+                fn, atys, rty = PARSER_METHODS[f.attr]
+                if len(e.args) != len(atys): raise Untranslatable("arguments of self.%s" % f.attr)
+                args = []
+                for a, want in zip(e.args, atys):
+                    t, ty = self.E(a, pre)
+                    args.append(self.coerce(t, ty, want, pre))
+                x = self.fresh("r")
+                pre.append((x, "%s %s" % (fn, " ".join(args)), rty))
+                return x, rty
             if rt == "Strids" and f.attr == "values" and not e.args:
                 return "(%s.map (·.2))" % recv, "NatList"
             if rt == "Strids" and f.attr == "get" and len(e.args) == 1:
@@ -340,14 +405,13 @@ class Tr:
                 x = self.fresh("y")
                 pre.append((x, "Gen.convertyear ⟨%s.century, %s.year⟩ %s %s" % (recv, recv, self.coerce(a, ta, "Int", pre), b), "Int"))
                 return x, "Int"
-            if rt == "Info" and f.attr in ("utczone", "jump", "pertain") and len(e.args) == 1:
+            if rt == "Info" and f.attr in ("utczone", "jump", "pertain", "hms", "ampm", "weekday", "month") and len(e.args) == 1:
                 a, ta = self.E(e.args[0], pre)
                 a = self.coerce(a, ta, "Tok", pre) if ta != "OptTok" else self.opt_tok(a, pre)
-                return "(Gen.P.info_%s %s %s)" % (f.attr, recv, a), "Bool"
-            if rt == "Info" and f.attr in ("hms", "ampm", "weekday", "month") and len(e.args) == 1:
-                a, ta = self.E(e.args[0], pre)
-                if ta != "Tok": raise Untranslatable("info.%s(%s)" % (f.attr, ta))
-                return "(Gen.P.info_%s %s %s)" % (f.attr, recv, a), "OptNat"
+                rty = "Bool" if f.attr in ("utczone", "jump", "pertain") else "OptNat"
+                x = self.fresh("q")
+                pre.append((x, "Gen.P.info_%s %s %s" % (f.attr, recv, a), rty))
+                return x, rty
             if rt == "Ymd" and f.attr == "_resolve_from_stridxs" and len(e.args) == 1:
                 a, ta = self.E(e.args[0], pre)
                 if ta != "Strids": raise Untranslatable("_resolve_from_stridxs(%s)" % ta)
@@ -494,6 +558,7 @@ class Tr:
         if ty == "OptNat": return "(PPy.truthyOptNat %s = true)" % t
         if ty == "OptInt": return "(PPy.truthyOptInt %s = true)" % t
         if ty == "None": return False
+        if ty == "Dec": return "(PM.Dec.isZero %s = false)" % t
         raise Untranslatable("truthiness of %s" % ty)
 
     def cmp1(self, left, lv, op, right, pre):
@@ -517,9 +582,13 @@ class Tr:
                 c = "(" + " ∨ ".join(alts) + ")"
                 return ("(¬ %s)" % c if neg else c), ("[]", "Static")
             r, tr = self.E(right, pre)
+            if tr == "Tok" and tl == "Static" and isinstance(l.v, str) and len(l.v) == 1:
+                c = "(%s.contains '%s' = true)" % (r, l.v)
+                return ("(¬ %s)" % c if neg else c), (r, tr)
             if tr in ("TokSet", "TokList") and tl == "Tok": c = "(%s.contains %s = true)" % (r, l)
             elif tr == "NatList" and tl == "Nat": c = "(%s.contains %s = true)" % (r, l)
             elif tr == "CharList" and tl == "Char": c = "(%s.contains %s = true)" % (r, l)
+            elif tr == "AsciiUpper" and tl == "Char": c = "(PM.isAsciiUpper %s = true)" % l
             elif tr == "Strids" and tl == "Char": c = "((%s.map (·.1)).contains %s = true)" % (r, l)
             else: raise Untranslatable("%s in %s" % (tl, tr))
             return ("(¬ %s)" % c if neg else c), (r, tr)
@@ -556,6 +625,8 @@ class Tr:
         if tl in ("Tok", "OptTok") and tr == "Static" and isinstance(r.v, str):
             return "(%s = %s)" % (self.coerce(l, tl, "OptTok"), self.coerce("(PM.tk \"%s\")" % r.v, "Tok", "OptTok"))
         if tl == "Bool" and tr == "Bool": return "(%s = %s)" % (l, r)
+        if {tl, tr} <= {"Tok", "OptTok", "None"}:
+            return "(%s = %s)" % (self.coerce(l, tl, "OptTok"), self.coerce(r, tr, "OptTok"))
         raise Untranslatable("== of %s and %s" % (tl, tr))
 
     # ------------------------------------------------------------------ statements
@@ -682,8 +753,31 @@ class Tr:
             return self.if_(s, rest, k, live_out)
         raise Untranslatable("statement %s" % type(s).__name__)
 
+    def try_exception(self, s, rest, k, live_out):
+        """try: BODY  except Exception as e: <raise E>  else: ELSE   — any exception of BODY becomes E"""
+        h = s.handlers[0]
+        hb = [x for x in h.body if not (isinstance(x, ast.Assign) and isinstance(x.value, ast.BinOp)
+                                         and isinstance(x.value.left, ast.Constant) and isinstance(x.value.left.value, str))]
+        if len(hb) != 1: raise Untranslatable("except Exception: handler shape")
+        v = hb[0].value if isinstance(hb[0], ast.Expr) else None
+        if not (isinstance(v, ast.Call) and ast.unparse(v.func) == "six.raise_from" and len(v.args) == 2
+                and isinstance(v.args[0], ast.Call) and isinstance(v.args[0].func, ast.Name) and v.args[0].func.id in ERRS
+                and isinstance(v.args[1], ast.Name) and v.args[1].id == h.name):
+            raise Untranslatable("except Exception: handler is not six.raise_from(E(...), e)")
+        err = v.args[0].func.id
+        if s.finalbody or self.has(s.body, ast.Return): raise Untranslatable("try/except Exception shape")
+        live = self.reads(s.orelse + rest) | set(live_out)
+        vs = [x for x in self.assigned(s.body) if x in live]
+        body = self.B(s.body, lambda: ".ok %s" % self.ret_text(vs), live)
+        tmp = self.fresh("j") if vs else "_"
+        after = self.B(s.orelse + rest, k, live_out)
+        return "(match (%s) with\n| .error _ => .error .%s\n| .ok %s =>\n%s%s)" % (
+            body, err, tmp, self.unpack(vs, tmp) if vs else "", after)
+
     def try_(self, s, rest, k, live_out):
         """try: return <expr with one D[key]>  except KeyError: S"""
+        if len(s.handlers) == 1 and isinstance(s.handlers[0].type, ast.Name) and s.handlers[0].type.id == "Exception":
+            return self.try_exception(s, rest, k, live_out)
         if len(s.handlers) != 1 or s.orelse or s.finalbody or len(s.body) != 1 or not isinstance(s.body[0], ast.Return):
             raise Untranslatable("try statement shape")
         h = s.handlers[0]
@@ -705,6 +799,18 @@ class Tr:
 
     def assign(self, target, value, nxt):
         pre = []
+        if isinstance(target, ast.Tuple) and all(isinstance(tg, ast.Attribute) for tg in target.elts):
+            # (res.minute, res.second) = <pair>
+            t, ty = self.E(value, pre)
+            if ty not in PAIR_TYPES or len(target.elts) != 2: raise Untranslatable("tuple assignment from %s" % ty)
+            out = ""
+            for i, tg in enumerate(target.elts):
+                if not (isinstance(tg.value, ast.Name) and self.types.get(tg.value.id) == "Res" and tg.attr in RES_FIELDS):
+                    raise Untranslatable("tuple assignment target")
+                f, fty = RES_FIELDS[tg.attr]
+                obj = tg.value.id
+                out += "let %s := { %s with %s := %s }\n" % (obj, obj, f, self.coerce("%s.%d" % (t, i + 1), PAIR_TYPES[ty][i], fty, pre))
+            return self.wrap(pre, out + nxt())
         if isinstance(target, ast.Tuple):
             names = []
             for tg in target.elts:
@@ -717,6 +823,11 @@ class Tr:
                     out += self.bind_name(n, t, ty, pre)
                 return self.wrap(pre, out + nxt())
             t, ty = self.E(value, pre)
+            if ty in PAIR_TYPES and len(names) == 2:
+                out = ""
+                for i, n in enumerate(names):
+                    out += self.bind_name(n, "%s.%d" % (t, i + 1), PAIR_TYPES[ty][i], pre)
+                return self.wrap(pre, out + nxt())
             if ty == "Ymd" and len(names) in (2, 3):                          # `year, month = self`
                 x = self.fresh("u")
                 pre.append((x, "PPy.unpack%d %s.vals" % (len(names), t), "Tuple"))
@@ -864,9 +975,40 @@ def indent(text):
 
 
 CLS = ("cls", "Char → PM.CClass")
+# methods of `parser` that are themselves translated: name -> (Lean function, argument types, result type)
+PARSER_METHODS = {"_to_decimal": ("Gen.P.toDecimal cls info", ["Tok"], "Dec"),
+                  "_parse_min_sec": ("Gen.P.parseMinSec info", ["Dec"], "NatOptPair"),
+                  "_parsems": ("Gen.P.parsems cls info", ["Tok"], "NatPair")}
 YMD_PROPS = ["_ymd.has_year", "_ymd.has_month", "_ymd.has_day"]
 
+INFO = dict(self_type="Info")
 PARSER_SPECS = [
+    # ---- parserinfo: the word-table lookups and validate
+    PFn("parserinfo.jump", "info_jump", [("name", "Tok")], "Bool", **INFO),
+    PFn("parserinfo.weekday", "info_weekday", [("name", "Tok")], "OptNat", **INFO),
+    PFn("parserinfo.month", "info_month", [("name", "Tok")], "OptNat", **INFO),
+    PFn("parserinfo.hms", "info_hms", [("name", "Tok")], "OptNat", **INFO),
+    PFn("parserinfo.ampm", "info_ampm", [("name", "Tok")], "OptNat", **INFO),
+    PFn("parserinfo.pertain", "info_pertain", [("name", "Tok")], "Bool", **INFO),
+    PFn("parserinfo.utczone", "info_utczone", [("name", "Tok")], "Bool", **INFO),
+    PFn("parserinfo.tzoffset", "info_tzoffset", [("name", "Tok")], "OptInt", **INFO),
+    PFn("parserinfo.validate", "info_validate", [("res", "Res")], "Res", returns="res", **INFO),
+    # ---- parser: the small methods
+    PFn("parser._could_be_tzname", "couldBeTzname", [("hour", "OptNat"), ("tzname", "OptTok"), ("tzoffset", "OptInt"),
+                                                      ("token", "Tok")], "Bool", self_type="Parser"),
+    PFn("parser._ampm_valid", "ampmValid", [("hour", "OptNat"), ("ampm", "OptNat"), ("fuzzy", "Bool")], "Bool",
+        self_type="Parser"),
+    PFn("parser._to_decimal", "toDecimal", [("val", "Tok")], "Dec", self_type="Parser", ctx=[CLS]),
+    PFn("parser._parse_min_sec", "parseMinSec", [("value", "Dec")], "NatOptPair", self_type="Parser",
+        locals_={"second": "OptNat"}),
+    PFn("parser._parsems", "parsems", [("value", "Tok")], "NatPair", self_type="Parser", ctx=[CLS]),
+    PFn("parser._assign_hms", "assignHms", [("res", "Res"), ("value_repr", "Tok"), ("hms", "Nat")], "Res",
+        self_type="Parser", ctx=[CLS], returns="res"),
+    PFn("parser._find_hms_idx", "findHmsIdx", [("idx", "Nat"), ("tokens", "Toks"), ("info", "Info"), ("allow_jump", "Bool")],
+        "OptNat", self_type="Parser", locals_={"hms_idx": "OptNat"}),
+    PFn("parser._parse_hms", "parseHms", [("idx", "Nat"), ("tokens", "Toks"), ("info", "Info"), ("hms_idx", "OptNat")],
+        "NatOptPair", self_type="Parser", locals_={"hms": "OptNat", "new_idx": "Nat"}),
+    PFn("parser._assign_tzname", "assignTzname", [("dt", "FoldDt"), ("tzname", "OptTok")], "FoldDt", self_type="Parser"),
     # ---- _ymd
     PFn("_ymd.could_be_day", "ymd_couldBeDay", [("value", "Dec")], "Bool", self_type="Ymd", inlines=YMD_PROPS),
     PFn("_ymd.append", "ymd_appendTok", [("val", "Tok"), ("label", "Label")], "Ymd", self_type="Ymd", ctx=[CLS],
